@@ -6,13 +6,18 @@ from typing import Any, Callable, Dict, List
 
 
 class Job:
-    def __init__(self, key: str, props: List[str], fn: str, cfg: Dict[str, Any], run: Callable[[], Any], tier: str = "quick"):
+    def __init__(self, key: str, props: List[str], fn: str, cfg: Dict[str, Any], run: Callable[[], Any], tier: str = "quick", shared: Any = None):
         self.key = key
         self.props = props
         self.fn = fn
         self.cfg = cfg
         self.run = run
         self.tier = tier
+        # shared jobs verify a contract several properties build on: ALL their obligations
+        # count for every property in `props` (whatever the obligation's own prefix)
+        if shared is None:
+            shared = key.split(":", 1)[0] in ("core", "docs") or (key.startswith(("c10:", "mod:Linear", "mod:Conv1d", "c09:Parameter")) and len(props) > 1)
+        self.shared = shared
 
 
 JOBS: Dict[str, Job] = {}
